@@ -48,8 +48,12 @@ def run(tier, seed):
         v.violation("refs/%s/trace-rejected" % ev.get("op"),
                     dict(engine=ENGINE, mode="trace", trace=[json.loads(x) for x in r["trace"]],
                          rejected_line=r["line_in_trace"], event=ev))
+    # the bulk ref operations behind `wrgl remote rename / remove` (engine remotecfg, RemoteCfg.tla)
+    from props import remotecfg_common
+    rcov, _ = remotecfg_common.run(v, PROP, tier, seed)
     nontrivial = sum(c for k, c in out.classes.items() if k != "-")
     cov = {
+        "remotecfg": rcov,
         "states": res.distinct, "transitions": res.generated,
         "traces_validated_against_impl": n_traces - len(rejections),
         "trace_events": n_events,
@@ -96,7 +100,7 @@ def replay(path):
     scen = os.path.join(vlib.sub("scn"), "one.ndjson")
     with open(scen, "w") as f:
         f.write(json.dumps(doc["scenario"]) + "\n")
-    out = vlib.replay(ENGINE, scen, nshards=1)
+    out = vlib.replay(doc.get("engine", ENGINE), scen, nshards=1)
     if out.errors:
         raise vlib.Inconclusive(str(out.errors))
     if out.failures or out.crashes or out.timeouts:
